@@ -170,11 +170,32 @@ def check(model, rep, tier):
   vfor = ta.methods['visit_For']
   fp = vfor.params()[0]
   body = vfor.node.body
-  b = pat.seq(body, ['_P_ = self.current_cfg_node',
-                     'self.current_cfg_node = self.current_analyzer.graph.index[%s.iter]' % fp,
-                     '%s.target = self.visit(%s.target)' % (fp, fp),
-                     'self.current_cfg_node = _P_'])
-  ok = b is not None
+  # in program order: remember the current CFG node, switch to the loop header
+  # (node.iter), visit the target there, switch back -- whatever the locals are
+  # called and whether the visit sits in a helper (new helpers are expanded)
+  stage = 0
+  saved = None
+  for st in body:
+    if stage == 0 and isinstance(st, ast.Assign) and core.norm(st.value) == \
+        'self.current_cfg_node' and isinstance(st.targets[0], ast.Name):
+      saved = st.targets[0].id
+      stage = 1
+    elif stage == 1 and isinstance(st, ast.Assign) and core.norm(st.targets[0]) == \
+        'self.current_cfg_node' and tpl.xnorm(vfor, st.value, st) == \
+        'self.current_analyzer.graph.index[%s.iter]' % fp:
+      stage = 2
+    elif stage == 2 and any(
+        isinstance(c, ast.Call) and core.norm(c.func) == 'self.visit' and c.args and
+        tpl.xnorm(vfor, c.args[0], st) == '%s.target' % fp for c in ast.walk(st)):
+      stage = 3
+    elif stage == 3 and isinstance(st, ast.Assign) and core.norm(st.targets[0]) == \
+        'self.current_cfg_node' and core.norm(st.value) == saved:
+      stage = 4
+    elif stage in (2, 3) and any(isinstance(c, ast.Call) and core.norm(c.func) in (
+        'self.visit', 'self.visit_block', 'self.generic_visit') for c in ast.walk(st)) and \
+        stage == 2:
+      break          # something else is visited under the header node first
+  ok = stage == 4
   rep.check(ok, 'RD-ENTRY', '%s:for-target-at-header' % vfor.site,
             'the loop target must be annotated with the state of the loop header '
             'node (node.iter), where its assignment is recorded', line=vfor.node.lineno)
